@@ -41,6 +41,8 @@ type SliceV struct {
 	viewOff *Expr    // for views produced by slicing a cursor blob: offset in the parent blob
 	viewIdx int      // item index of the bytes item this view consumed
 	parent  *SliceV
+	made    bool     // created by make([]byte, n): may be filled positionally with binary.PutUintN
+	wpos    *Expr    // bytes written so far by positional writes
 }
 
 // cursor: a blob that is parsed with index / slice expressions is treated as a sequential
